@@ -4,6 +4,7 @@
 -/
 import Mb2.Mbi
 import Mb2.Spec
+import Mb2.Ids
 namespace Mb2.Driver
 open Mb2
 
@@ -138,6 +139,90 @@ def specWalk (t : List String) : String :=
       ";".intercalate ((Spec.absRun w.1 w.2 [some 0] (parseOps rest)).filterMap (obsStr k buf))
   | _ => "*"
 
+def fbtCase (t : List String) : String :=
+  match t with
+  | [_, b] =>
+    match fbTypeOfByte b.toNat! with
+    | some 0 => "known:0 palette=1"
+    | some k => s!"known:{k}"
+    | none => s!"unknown:{b.toNat!}"
+  | _ => "bad-case"
+
+def specFbt (t : List String) : String :=
+  match t with
+  | [_, b] => let n := b.toNat!; if n ≤ 2 then s!"known:{n}*" else s!"unknown:{n}"
+  | _ => "*"
+
+def magicCase : String := s!"{(hex64 MBI_MAGIC.toUInt64).drop 8} {(hex64 HEADER_MAGIC.toUInt64).drop 8}"
+
+
+def hex32 (v : Nat) : String := ((hex64 (UInt64.ofNat v)).drop 8).toString
+
+def hloadOutStr : Out HLoadErr HLoaded → String :=
+  resStr (fun
+    | .error (.memory e) => s!"err:{memErrStr e}"
+    | .error .magicNotFound => "err:MagicNotFound"
+    | .error .checksumMismatch => "err:ChecksumMismatch"
+    | .ok h => s!"ok magic={hex32 h.magic} arch={h.arch} length={h.length} checksum={hex32 h.checksum} verify=true")
+
+def hloadCase (p : Profile) (t : List String) : String :=
+  match t with
+  | [_, n, hx] => hloadOutStr (hload p (n == "1") (unhex hx))
+  | _ => "bad-case"
+
+def specHload (t : List String) : String :=
+  match t with
+  | [_, n, hx] => expectStr hloadOutStr (Spec.hload (n == "1") (unhex hx))
+  | _ => "*"
+
+def cksCase (t : List String) : String :=
+  match t with
+  | [_, m, a, l] => toString (calcChecksum m.toNat! a.toNat! l.toNat!)
+  | _ => "bad-case"
+
+/-- independent of the model: the unique c < 2^32 with (m + a + l + c) % 2^32 = 0 -/
+def specCks (t : List String) : String :=
+  match t with
+  | [_, m, a, l] => let s := (m.toNat! + a.toNat! + l.toNat!) % 4294967296; toString ((4294967296 - s) % 4294967296)
+  | _ => "*"
+
+def sparseBuf (len : Nat) (sp : String) : Bytes :=
+  let parts := (sp.splitOn ",").filter (fun s => s != "" && s != "-")
+  let arr := parts.foldl (fun (a : Array UInt8) part =>
+    match part.splitOn ":" with
+    | [o, h] =>
+      let off := o.toNat!
+      let b := unhex h
+      (List.range b.length).foldl (fun a i => if off + i < a.size then a.set! (off + i) (b.getD i 0) else a) a
+    | _ => a) (Array.replicate len (0 : UInt8))
+  arr.toList
+
+def findOutStr (buf : Bytes) : Res (Ex HLoadErr (Option (Nat × Nat))) → String :=
+  resStr (fun
+    | .error (.memory e) => s!"err:{memErrStr e}"
+    | .error .magicNotFound => "err:MagicNotFound"
+    | .error .checksumMismatch => "err:ChecksumMismatch"
+    | .ok none => "none"
+    | .ok (some (i, l)) => s!"some({i},{i},{l},{hex64 (fnv (slice buf i l))})")
+
+def findCase (t : List String) : String :=
+  match t with
+  | _ :: mis :: len :: rest =>
+    let buf := sparseBuf len.toNat! (rest.headD "-")
+    findOutStr buf (findHeaderAt mis.toNat! buf)
+  | _ => "bad-case"
+
+def specFind (t : List String) : String :=
+  match t with
+  | _ :: mis :: len :: rest =>
+    if mis.toNat! % 8 ≠ 0 then "*" else
+    let buf := sparseBuf len.toNat! (rest.headD "-")
+    match Spec.find buf with
+    | .none_ => "none"
+    | .error => "err:*"
+    | .some_ i l => s!"some({i},{i},{l},{hex64 (fnv (slice buf i l))})"
+  | _ => "*"
+
 def specRnd (t : List String) : String :=
   match t with
   | [_, n] => let v := n.toNat!; if v + 7 < 18446744073709551616 then toString (roundUp8 v) else "*"
@@ -153,6 +238,11 @@ def specHandle (line : String) : String :=
     | "LOAD" => specLoad t
     | "WALK" => specWalk t
     | "RND" => specRnd t
+    | "FBT" => specFbt t
+    | "MAGIC" => "36d76289 e85250d6"
+    | "HLOAD" => specHload t
+    | "CKS" => specCks t
+    | "FIND" => specFind t
     | _ => "*"
 
 /-! ### exhaustive block hashes: FNV fold of a model function over the 2^20 arguments of block `b` -/
@@ -169,6 +259,11 @@ def blockHash (f : String) (b : Nat) : UInt64 := Id.run do
     let v := lo + i
     let r : UInt64 := match f with
       | "rnd" => match incAlign .release v with | .ok x => UInt64.ofNat x | _ => 0
+      | "tt" => sigTagType (UInt32.ofNat v)
+      | "mat" => sigMemType (UInt32.ofNat v)
+      | "elf" => sigElfType (UInt32.ofNat v)
+      | "cks0" => UInt64.ofNat (calcChecksum HMAGIC 0 v) ^^^ (UInt64.ofNat (calcChecksum ((v * 2654435761) % 4294967296) 0 v) <<< 32)
+      | "cks4" => UInt64.ofNat (calcChecksum HMAGIC 4 v) ^^^ (UInt64.ofNat (calcChecksum ((v * 2654435761) % 4294967296) 4 v) <<< 32)
       | _ => 0
     h := fnvU64 h r
   return h
@@ -183,6 +278,11 @@ def handle (p : Profile) (line : String) : String :=
     | "LOAD" => loadCase p t
     | "WALK" => walkCase p t
     | "RND" => rndCase p t
+    | "FBT" => fbtCase t
+    | "MAGIC" => magicCase
+    | "HLOAD" => hloadCase p t
+    | "CKS" => cksCase t
+    | "FIND" => findCase t
     | _ => s!"unknown-family:{f}"
 
 end Mb2.Driver
